@@ -466,7 +466,13 @@ impl<T: Object + DataSize> Lazy<T> {
     pub fn load(&self, resolve: &impl Resolve) -> Result<MaybeRef<T>> {
         self.cache.get_or_try_init(|| {
             match self.primitive {
-                Primitive::Reference(r) => resolve.get(Ref::new(r)).map(MaybeRef::Indirect),
+                Primitive::Reference(r) => match resolve.get(Ref::new(r)) {
+                    Ok(obj) => Ok(MaybeRef::Indirect(obj)),
+                    // a reference to a missing object is null
+                    Err(ref e) if is_missing_reference(&self.primitive, e) =>
+                        T::from_primitive(Primitive::Null, resolve).map(|o| MaybeRef::Direct(Arc::new(o))),
+                    Err(e) => Err(e)
+                },
                 ref p => T::from_primitive(p.clone(), resolve).map(|o| MaybeRef::Direct(Arc::new(o))),
             }
         }).cloned()
@@ -726,7 +732,12 @@ impl<V: Object> Object for HashMap<Name, V> {
                 }
                 Ok(new)
             }
-            Primitive::Reference (id) => HashMap::from_primitive(resolve.resolve(id)?, resolve),
+            Primitive::Reference (id) => match resolve.resolve(id) {
+                Ok(p) => HashMap::from_primitive(p, resolve),
+                // a reference to a missing object is null
+                Err(ref e) if is_missing_reference(&p, e) => Ok(HashMap::new()),
+                Err(e) => Err(e)
+            },
             p => Err(PdfError::UnexpectedPrimitive {expected: "Dictionary", found: p.get_debug_name()})
         }
     }
